@@ -39,13 +39,35 @@ func c10Cmd(args []string) {
 	sc := bufio.NewScanner(f)
 	sc.Buffer(make([]byte, 1<<20), 1<<20)
 	lineNo := 0
+	// consecutive lines carrying the same token vsession=<id> run one after the other in ONE session (shared file pool etc.)
+	var sess *hermes.HermesSession
+	sessID := ""
 	for sc.Scan() {
 		line := sc.Text()
 		if len(line) == 0 {
 			continue
 		}
-		c10Line(*work, line, lineNo, *slots)
+		id := ""
+		for _, t := range splitArgs(line) {
+			if len(t) > 9 && t[:9] == "vsession=" {
+				id = t[9:]
+			}
+		}
+		if id != sessID {
+			if sess != nil {
+				sess.Close()
+				sess = nil
+			}
+			sessID = id
+			if id != "" {
+				sess = hermes.NewHermesSession()
+			}
+		}
+		c10Line(*work, line, lineNo, *slots, sess)
 		lineNo++
+	}
+	if sess != nil {
+		sess.Close()
 	}
 }
 
@@ -64,7 +86,7 @@ func c10ints(a []int) []int { r := make([]int, len(a)); copy(r, a); return r }
 
 func c10same(a, b float64) bool { return math.Float64bits(a) == math.Float64bits(b) }
 
-func c10Line(work, line string, lineNo, slots int) {
+func c10Line(work, line string, lineNo, slots int, sess *hermes.HermesSession) {
 	var (
 		inited                             bool
 		preG                               hermes.GlobalVarsMain
@@ -207,7 +229,7 @@ func c10Line(work, line string, lineNo, slots int) {
 			dsummEnd, umsEnd = g.DSUMM, g.UMS
 		}
 	}
-	res := c10RunRecover(work, line)
+	res := c10RunRecover(work, line, sess)
 	hermes.VerifProbe = nil
 	emit(jobj{"k": "run", "line": lineNo, "success": res.Success, "err": res.Err, "days": days, "substeps_gt1": nitroOther,
 		"regen_unexplained": regenUnexpl, "dsumm_unexplained": dsummUnexpl, "overnight_changes": overnight, "overnight_first": overnightFirst})
@@ -270,11 +292,30 @@ func c10DuengCmd(args []string) {
 }
 
 // c10RunRecover runs one batch line; a panic inside the simulator ends that run only (reported as its error)
-func c10RunRecover(work, line string) (res runResult) {
+func c10RunRecover(work, line string, sess *hermes.HermesSession) (res runResult) {
 	defer func() {
 		if r := recover(); r != nil {
 			res = runResult{Success: false, Err: fmt.Sprintf("panic: %v", r)}
 		}
 	}()
-	return runProject(work, splitArgs(line))
+	if sess == nil {
+		return runProject(work, splitArgs(line))
+	}
+	out := make(chan *hermes.RunReturn, 1)
+	logs := make(chan string, 1000)
+	done := make(chan struct{})
+	go func() {
+		for range logs {
+		}
+		close(done)
+	}()
+	sess.Run(work, splitArgs(line), "[0]", out, logs)
+	r := <-out
+	close(logs)
+	<-done
+	res = runResult{Success: r.Success}
+	if r.Err != nil {
+		res.Err = r.Err.Error()
+	}
+	return res
 }
